@@ -765,7 +765,7 @@ fn large_chain_totals(tier: Tier) -> Vec<usize> {
 fn large_chain_case(totals: &[usize], idx: u64, sink: &mut xplore::Sink<'_>) {
     let form = (idx % LARGE_CHAIN_FORMS.len() as u64) as usize;
     let total = totals[(idx / LARGE_CHAIN_FORMS.len() as u64) as usize];
-    let case = || json!({"group": "large-chain", "form": LARGE_CHAIN_FORMS[form], "about_bytes": total, "index": idx});
+    let case = move || json!({"group": "large-chain", "form": LARGE_CHAIN_FORMS[form], "about_bytes": total, "index": idx});
     let data = |n: usize, salt: usize| payload(n, salt);
     let mut calls: Vec<Call<Meth>> = Vec::new();
     match form {
@@ -791,6 +791,12 @@ fn large_chain_case(totals: &[usize], idx: u64, sink: &mut xplore::Sink<'_>) {
             }
         }
     }
+    check_chain_of(calls, &case, sink, idx);
+}
+
+/// One write with all of `calls`, then exactly the owed replies, then the end, the next exchange's
+/// frame untouched.
+fn check_chain_of(calls: Vec<Call<Meth>>, case: &dyn Fn() -> Value, sink: &mut xplore::Sink<'_>, idx: u64) {
     let mut exp = Vec::new();
     for c in &calls {
         exp.extend_from_slice(&serde_json::to_vec(c).unwrap());
@@ -1090,9 +1096,25 @@ fn proxy_chain_case(idx: u64, sink: &mut xplore::Sink<'_>) {
 }
 const PROXY_CHAIN_CASES: u64 = 4 * 7 * 3 * 2;
 
+/// A chain of five calls (plain, plain with a payload of `pad` bytes, oneway, more, plain): for every
+/// `pad` in 0..=600 some call of the chain ends exactly at the end of the send buffer as it is then.
+fn padded_chain_case(idx: u64, sink: &mut xplore::Sink<'_>) {
+    let pad = idx as usize;
+    let calls = vec![
+        Call::new(Meth::Get { id: 1 }),
+        Call::new(Meth::Put { id: 2, data: payload(pad, 2) }),
+        Call::new(Meth::Get { id: 3 }).set_oneway(true),
+        Call::new(Meth::Put { id: 4, data: payload(pad / 3, 4) }).set_more(true),
+        Call::new(Meth::Get { id: 5 }),
+    ];
+    sink.goal("chain-with-calls-of-every-size");
+    let case = move || json!({"group": "padded-chain", "index": idx, "second_call_payload_bytes": pad});
+    check_chain_of(calls, &case, sink, idx);
+}
+
 pub fn run_c06(tier: Tier) -> i32 {
     let mut rep = Report::new("C06", tier.name());
-    rep.rule = "DFS by re-execution over: chain in {plain, oneway, more, oneway+more}^1..N x per non-oneway call a reply script (success | declared error | a final reply that does not decode - wrong-shaped parameters or an error nobody declares; for `more` 0..2 continuing replies before that final reply) x trailing unrelated frame {absent, present} x arrival chunking of the reply bytes (cut candidates: before the first byte, after the first byte / in the middle / before the NUL of every frame, between frames; phase `inter` takes every subset of the inter-frame cuts, the other cuts and spurious Pending answers cost one deviation each). Outcomes are distinct (item sequence, number of transport polls). Phase generated-chain-methods: chains started with each of the four `chain_<m>` methods the proxy macro generates for a trait with plain and more methods with and without arguments (oneway methods get no chain forms), extended with 0..2 generated extension methods, 0..2 continuing replies to a `more` start, replies arriving together or one by one. Phase large-chains: chains adding up to 16 KiB .. 200 KB (thorough: 3 MB), built in three ways (one large call among small ones, hundreds of 1000-byte calls, a large call first), kinds rotating plain / oneway / more: one write, the owed replies, the next exchange untouched".into();
+    rep.rule = "DFS by re-execution over: chain in {plain, oneway, more, oneway+more}^1..N x per non-oneway call a reply script (success | declared error | a final reply that does not decode - wrong-shaped parameters or an error nobody declares; for `more` 0..2 continuing replies before that final reply) x trailing unrelated frame {absent, present} x arrival chunking of the reply bytes (cut candidates: before the first byte, after the first byte / in the middle / before the NUL of every frame, between frames; phase `inter` takes every subset of the inter-frame cuts, the other cuts and spurious Pending answers cost one deviation each). Outcomes are distinct (item sequence, number of transport polls). Phase generated-chain-methods: chains started with each of the four `chain_<m>` methods the proxy macro generates for a trait with plain and more methods with and without arguments (oneway methods get no chain forms), extended with 0..2 generated extension methods, 0..2 continuing replies to a `more` start, replies arriving together or one by one. Phase chains-of-every-size: a chain of five calls (plain, plain with a payload of p bytes, oneway, more, plain) for every p in 0..=600 (thorough 1500), so that some call ends exactly at the end of the send buffer. Phase large-chains: chains adding up to 16 KiB .. 200 KB (thorough: 3 MB), built in three ways (one large call among small ones, hundreds of 1000-byte calls, a large call first), kinds rotating plain / oneway / more: one write, the owed replies, the next exchange untouched".into();
     rep.assumptions = vec!["server reply scripts conform to the protocol (one reply per call; continues only on replies to `more` calls)".into(), "the stream is polled only when its waker fired or new bytes were delivered".into(), "after a reply that does not decode the stream may end (what remains of the exchange is then not judged) or carry on; in both cases it must not take or wait for more frames than the chain is owed".into()];
     for g in [
         "chain-of-only-oneway-calls",
@@ -1131,6 +1153,8 @@ pub fn run_c06(tier: Tier) -> i32 {
     }
     rep.require_goal("generated-chain-starts-with-a-more-method-without-arguments");
     rep.add(xplore::sweep("generated-chain-methods", PROXY_CHAIN_CASES, &Config { max_wall: wall, ..Default::default() }, proxy_chain_case));
+    rep.require_goal("chain-with-calls-of-every-size");
+    rep.add(xplore::sweep("chains-of-every-size", tier.pick(601, 1501), &Config { max_wall: wall, ..Default::default() }, padded_chain_case));
     rep.require_goal("chain-larger-than-64KiB");
     let totals = large_chain_totals(tier);
     let cfg = Config { max_wall: wall, ..Default::default() };
@@ -1173,6 +1197,14 @@ pub fn run_c11(tier: Tier) -> i32 {
 }
 
 pub fn replay(v: &Value) -> Replayed {
+    if v["case"]["group"] == "padded-chain" {
+        let idx = v["case"]["index"].as_u64().unwrap_or(0);
+        let st = xplore::sweep_one("chains-of-every-size", idx, &Config { threads: 1, ..Default::default() }, padded_chain_case);
+        return match st.violations.into_iter().next() {
+            Some((class, rec)) => Replayed::Fail { trace: vec![format!("case {}", v["case"])], class, detail: rec.detail },
+            None => Replayed::Pass(vec![format!("case {}", v["case"])]),
+        };
+    }
     if v["case"]["group"] == "proxy-chain" {
         let idx = v["case"]["index"].as_u64().unwrap_or(0);
         let st = xplore::sweep_one("generated-chain-methods", idx, &Config { threads: 1, ..Default::default() }, proxy_chain_case);
